@@ -80,6 +80,11 @@ CHECKS = {
                   'SMT translation of the current kmers.pyx; counterexamples are replayed on the real kernels.',
              note='Trusted: z3/cvc5, the Cython front-end and C typing rules of kbmc (validated differentially against the compiled module), specs/kmers_spec.py.',
              ref='3/C07'),
+ 'C16': dict(engine='X', technique='CrossHair/z3-driven exhaustive case split over the 3 x 5 source configurations, sizes and genome choices of the real dist callback (real distance kernels, real dump_dmat_csv / load_dmat_csv on an in-memory file)',
+             text='For every way of supplying queries and references, every size within the bound and every choice and order of genomes from the pool, the written CSV has the reference labels as header, '
+                  'one row per query label, and each cell equals the two-signature distance formatted to four decimals; --square gives the symmetric zero-diagonal matrix of the queries.',
+             note='Trusted: CrossHair path exhaustion; file-reading stubs returning real signature collections; the two-signature distance itself is C02.',
+             ref='3/C16'),
  'C20': dict(engine='KX', technique='bounded model checking (QF_BV) of AdvancedIndexingMixin.__getitem__/_check_index with a bit-precise numpy dtype model for collection lengths < 2^31; CrossHair-driven exhaustive case split on the real SignatureArray/SignatureList/AnnotatedSignatures',
              text='K: for every integer dtype, every entry value and every collection length below 2^31 the index array reaching _getitem_int_array holds the list-semantics positions, '
                   'out-of-range raises IndexError and the caller\'s array is untouched.  X: every int index, slice triple, index list, mask, 2-3 step mutation sequence and equality variant '
